@@ -1,4 +1,4 @@
-CONSTANTS NStates = {1, 3}  Shapes = {1, 2, 3, 4, 5}  Salts = {0, 1}  Stages = {0, 2}  WinSets = {2, 6}
+CONSTANTS NStates = {1, 3}  Shapes = {1, 2, 3, 4, 5}  Salts = {0, 1}  Stages = {0, 2}  WinSets = {1, 6, 8}
 SPECIFICATION Spec
 INVARIANT Emit
 CHECK_DEADLOCK FALSE
